@@ -81,7 +81,7 @@ def run(tier):
     r1 = validate(rep, hs, "model")
     # random long histories (I->S beyond the bound)
     nrand, length = (300, 30) if tier == "quick" else (3000, 60)
-    rh = [{"id": "r%d" % k, "c0": "c1", "events": random_history(rng, length)} for k in range(nrand)]
+    rh = [{"id": "r%d" % k, "c0": "c1", "events": random_history(rng, length), "outsp": ("out", "./out", "lib/../out", "out/", "./src/../out")[k % 5]} for k in range(nrand)]
     rh += [r for r in vlib.pinned_reproducers(PID) if "events" in r]
     r2 = validate(rep, rh, "random")
     rep.coverage.update({
